@@ -83,6 +83,9 @@ def gen_cases(ctx):
                                     if f != "dominated_operations" or not gen.has_zero(c["instance"])]
                                    + gen.CUSTOM_FILTERS)
                 c["filter"] = {"names": [first, gen.HOLDING_FILTER], "form": "custom"}
+        if c.get("filter") and i % 7 == 3 and gen.HOLDING_FILTER not in c["filter"]["names"]:
+            # the filter is wrapped by user code that fails once in a while
+            c["filter"] = dict(c["filter"], flaky=True)
         c["kind"] = "history"
         c["resets"] = rng.random() < 0.25
         # the unscheduled-operations observer may also be created in the middle of a history
@@ -311,6 +314,13 @@ def evaluate_a_rule(ctx, run, rng):
 
 def query_burst(ctx, run, mirror, rng, lo=5, hi=40):
     trace = []
+    if isinstance(run.d.ready_operations_filter, gen.Flaky) and rng.random() < 0.5:
+        # the user's filter fails once during a query; the caller catches it and asks again
+        q0 = rng.choice(["available_operations", "current_time", "available_jobs", "available_machines",
+                         "completed_operations", "ongoing_operations"])
+        if gen.fail_once(run.d, getattr(run.d, q0)):
+            ctx.count("queries_interrupted_by_a_failing_user_filter")
+            trace.append(f"<{q0} interrupted by a filter failure>")
     for _ in range(rng.randint(lo, hi)):
         if rng.random() < 0.06:
             evaluate_a_rule(ctx, run, rng)
